@@ -29,6 +29,23 @@ def alloc_programs(tier):
     return progs
 
 
+def exact_alloc_programs():
+    """the user code allocates a known number of times; the macro must add none (exact counts compared)"""
+    progs = []
+    T = [
+        ("wrapper-capture-string", "join! { Some(1) |> >>> -> { let s = String::from(\"abcd\"); move |v: i32| v + s.len() as i32 } <<<, 2 }",
+         "(Some(1).map(|w| ({ let s = String::from(\"abcd\"); move |v: i32| v + s.len() as i32 })(w)), 2)"),
+        ("capture-string", "try_join! { Some(1) |> { let s = String::from(\"abcd\"); move |v: i32| v + s.len() as i32 } ~|> { let t = String::from(\"xy\"); move |v: i32| v + t.len() as i32 }, Some(2) }",
+         "{ let a = Some(1).map({ let s = String::from(\"abcd\"); move |v: i32| v + s.len() as i32 }); let b = Some(2); let a = a.map({ let t = String::from(\"xy\"); move |v: i32| v + t.len() as i32 }); match (a, b) { (Some(a), Some(b)) => Some((a, b)), _ => None } }"),
+        ("nested-wrapper-capture-vec", "join! { Some(Some(1)) |> >>> |> >>> -> { let v0 = vec![1, 2, 3]; move |v: i32| v + v0.len() as i32 } <<< <<<, 2 }",
+         "(Some(Some(1)).map(|w| w.map(|w2| ({ let v0 = vec![1, 2, 3]; move |v: i32| v + v0.len() as i32 })(w2))), 2)"),
+    ]
+    body = "let (x, n) = count_allocs(|| %s);\nformat!(\"{:?} allocations={}\", x, n)"
+    for tid, d, r in T:
+        progs.append(Prog("allocx/%s" % tid, body % r, body % d, [[0]], "Value", meta={"macro": d.split("!")[0], "dsl": d, "ref": r}))
+    return progs
+
+
 def tok_program(mac, ds, rich):
     """profile program over the move-only, non-Clone, drop-logging token type"""
     is_try, is_async = mac in dsl.TRY, mac in dsl.ASYNC
@@ -55,7 +72,8 @@ def tok_program(mac, ds, rich):
             if rich and not is_async:
                 # a wrapper that consumes and re-creates the token, and an inspection by reference
                 if is_try:
-                    items.append(Wrap("|>", [Op("->", [O("|t: Tok| t.next(7)")])], close=True))
+                    # inside a wrapper: a plain operand and a block capture that owns a move-only token (must not be cloned)
+                    items.append(Wrap("|>", [Op("->", [O("|t: Tok| t.next(7)")]), Op("->", [B("let g = Tok::new(%d); move |t: Tok| { ev(\"%d.%d.g\", &g); t.next(8) }" % (900 + 10 * b + k, b, k))])], close=True))
                     items.append(Op("??", [O("|r: &Result<Tok, i32>| { ev(\"%d.%d.q\", r); }" % (b, k))]))
                 else:
                     items.append(Op("??", [O("|t: &Tok| { ev(\"%d.%d.q\", t); }" % (b, k))]))
@@ -203,6 +221,24 @@ def borrow_programs():
          "let mut hits = 0i32;\n",
          "join! { Some(lg(\"0.0.i\", 1)) |> >>> -> |v: i32| { hits += 1; v + 1 } <<< ~-> |o: Option<i32>| (o, hits), 2 }",
          "{ let a = Some(lg(\"0.0.i\", 1)).map(|v: i32| { hits += 1; v + 1 }); let b = 2; let a = (a, hits); (a, b) }",
+         "\nformat!(\"{:?}\", x)"),
+    ]
+    more += [
+        # a bare `move` closure takes its captures where it is written: after the initial expression used the value
+        ("move-closure-after-use",
+         "let data = String::from(\"abc\");\n",
+         "join! { Some(data.len()) |> move |len: usize| (data, len), 1 }",
+         "(Some(data.len()).map(move |len: usize| (data, len)), 1)",
+         "\nformat!(\"{:?}\", x)"),
+        ("move-closure-snapshot",
+         "let mut c = 1i32; fn bump(c: &mut i32) -> i32 { *c += 1; *c }\n",
+         "join! { Some(bump(&mut c)) |> move |v: i32| v * 10 + c ~|> move |v: i32| v * 10 + c, bump(&mut c) }",
+         "{ let a = Some(bump(&mut c)).map(move |v: i32| v * 10 + c); let b = bump(&mut c); let a = { a }.map(move |v: i32| v * 10 + c); (a, b) }",
+         "\nformat!(\"{:?}\", x)"),
+        ("wrapper-capture-owns-string",
+         "",
+         "join! { Some(1) |> >>> -> { let s = String::from(\"abcd\"); move |v: i32| v + s.len() as i32 } <<<, 2 }",
+         "(Some(1).map(|w| ({ let s = String::from(\"abcd\"); move |v: i32| v + s.len() as i32 })(w)), 2)",
          "\nformat!(\"{:?}\", x)"),
     ]
     for tid, pro, d, r, epi in more:
